@@ -22,6 +22,10 @@
      session cookie, the key of an existing session of that user that is not expired; and that
      user exists and is active.
 
+  A session exists from its creation until it is ended (ExpireSession); RenewSession — even when it is
+  handed a session object obtained while the session was still alive — never makes an ended (or a
+  born-expired) session exist again, so a request carrying such a key is never authenticated.
+
   The hash formats (bcrypt for passwords, influxdb2-sha256 and influxdb2-sha512 PHC strings for tokens when
   the token store is configured to hash) are exercised through these same clauses: a lookup
   that went through a stored hash must still single out exactly the right password / token.
@@ -86,6 +90,8 @@ def trackStep (t : Track) : Op × Ans → Track
   | (.dt id, .ok) => { t with toks := KV.del t.toks id }
   | (.cs _ long, .okKey k u) => if long then { t with sess := KV.put t.sess k u } else t   -- `exp`: born expired
   | (.xs k, .ok) => { t with sess := KV.del t.sess k }
+  -- renewing never brings a session into existence: an ended session stays ended, whatever the answer
+  | (.renew _ _, _) => t
   | (.req h c, .http _ reached pset uid) =>
     if reached && pset = some true then
       (if justified t h c uid then t else t.fail "unbacked-authentication")
